@@ -11,7 +11,11 @@
 //! frame inside the crate is a violation, and so is any answer that differs
 //! from the naive reference.
 //!
-//! The seven dispatch cells are warmed on the main thread first: their racy
+//! With `--cold` nothing is warmed: every thread's first constructions and
+//! calls happen concurrently in a fresh process (answers only; this mode is
+//! not run under helgrind).
+//!
+//! Otherwise the seven dispatch cells are warmed on the main thread first: their racy
 //! first calls are what loom explores exhaustively, and a Relaxed store is a
 //! plain `mov` that a lock-set detector cannot tell from a data race.
 
@@ -77,8 +81,31 @@ fn needles() -> Vec<Vec<u8>> {
     v
 }
 
-fn worker(t: usize, rounds: usize, shared: &[(memmem::Finder<'_>, memmem::FinderRev<'_>, Vec<u8>)]) {
+static GATE: AtomicU64 = AtomicU64::new(0);
+
+fn worker(t: usize, rounds: usize, threads: usize, shared: Option<&[(memmem::Finder<'_>, memmem::FinderRev<'_>, Vec<u8>)]>) {
     let ns = needles();
+    // cold mode: nothing in the process has used the crate yet; all threads
+    // leave the gate together and make their FIRST constructions and calls
+    // concurrently (lazily initialised state anywhere in the crate is
+    // published under contention)
+    let own: Vec<(memmem::Finder<'_>, memmem::FinderRev<'_>, Vec<u8>)>;
+    let shared = match shared {
+        Some(s) => s,
+        None => {
+            GATE.fetch_add(1, Ordering::SeqCst);
+            while GATE.load(Ordering::SeqCst) < threads as u64 {
+                std::hint::spin_loop();
+            }
+            // longest needle first: the very first construction after the
+            // gate is the one that touches the most lazily built state
+            let mut o: Vec<(memmem::Finder<'_>, memmem::FinderRev<'_>, Vec<u8>)> =
+                ns.iter().rev().map(|n| (memmem::Finder::new(n), memmem::FinderRev::new(n), n.clone())).collect();
+            o.reverse();
+            own = o;
+            &own
+        }
+    };
     for round in 0..rounds {
         // byte searches: thread-specific needles and match positions
         let (n1, n2, n3) = (b'a' + t as u8, b'm' + t as u8, b'x');
@@ -167,6 +194,16 @@ fn main() {
     let get = |k: &str, d: usize| a.iter().position(|x| x == k).and_then(|i| a.get(i + 1)).and_then(|v| v.parse().ok()).unwrap_or(d);
     let threads = get("--threads", 3);
     let rounds = get("--rounds", 2);
+    if a.iter().any(|x| x == "--cold") {
+        std::thread::scope(|s| {
+            for t in 0..threads {
+                s.spawn(move || worker(t, rounds, threads, None));
+            }
+        });
+        let m = MISMATCHES.load(Ordering::Relaxed);
+        println!("RACE-HARNESS threads={} rounds={} calls={} mismatches={}", threads, rounds, CALLS.load(Ordering::Relaxed), m);
+        std::process::exit(if m > 0 { 3 } else { 0 });
+    }
     // warm the dispatch cells (see the module comment)
     let w = b"warm up the seven dispatch cells";
     let _ = memchr::memchr(b'x', w);
@@ -182,7 +219,7 @@ fn main() {
     std::thread::scope(|s| {
         for t in 0..threads {
             let shared = &shared;
-            s.spawn(move || worker(t, rounds, shared));
+            s.spawn(move || worker(t, rounds, threads, Some(shared)));
         }
     });
     let m = MISMATCHES.load(Ordering::Relaxed);
